@@ -6,17 +6,17 @@ package design
 
 // Design is one goa design.
 type Design struct {
-	API      string     `json:"api"`
-	Path     string     `json:"path,omitempty"` // API level HTTP base path
+	API  string `json:"api"`
+	Path string `json:"path,omitempty"` // API level HTTP base path
 	// LooseDefaults hands array and map defaults to the DSL as []any / map[string]any instead of []string / map[string]string
-	LooseDefaults bool `json:"loose_defaults,omitempty"`
-	Types    []*TypeDef `json:"types,omitempty"`
-	Schemes  []*Scheme  `json:"schemes,omitempty"`
-	Security []Req      `json:"security,omitempty"` // API level requirements
-	Errors   []*ErrDef  `json:"errors,omitempty"`   // API level errors
-	APIHTTP  []*ErrResp `json:"api_http_errors,omitempty"`
-	Services []*Service `json:"services"`
-	Meta     [][]string `json:"meta,omitempty"` // API level metadata: key, values...
+	LooseDefaults bool       `json:"loose_defaults,omitempty"`
+	Types         []*TypeDef `json:"types,omitempty"`
+	Schemes       []*Scheme  `json:"schemes,omitempty"`
+	Security      []Req      `json:"security,omitempty"` // API level requirements
+	Errors        []*ErrDef  `json:"errors,omitempty"`   // API level errors
+	APIHTTP       []*ErrResp `json:"api_http_errors,omitempty"`
+	Services      []*Service `json:"services"`
+	Meta          [][]string `json:"meta,omitempty"` // API level metadata: key, values...
 	// Raw lists deliberately misplaced / dangling DSL calls (malformed stream, C12).
 	Raw []*RawCall `json:"raw,omitempty"`
 }
@@ -150,17 +150,17 @@ type Mapped struct {
 
 // HTTPMap is the HTTP transport mapping of a method.
 type HTTPMap struct {
-	Verb      string     `json:"verb"`
-	Path      string     `json:"path"`
-	MorePaths []string   `json:"more_paths,omitempty"`
+	Verb      string   `json:"verb"`
+	Path      string   `json:"path"`
+	MorePaths []string `json:"more_paths,omitempty"`
 	// MoreRoutes are further routes of the same endpoint with their own verb: [verb, path]
 	MoreRoutes [][]string `json:"more_routes,omitempty"`
-	Params    []Mapped   `json:"params,omitempty"`
-	Headers   []Mapped   `json:"headers,omitempty"`
-	Cookies   []Mapped   `json:"cookies,omitempty"`
-	Body      *BodySpec  `json:"body,omitempty"`
-	Responses []*Resp    `json:"responses,omitempty"`
-	Errors    []*ErrResp `json:"errors,omitempty"`
+	Params     []Mapped   `json:"params,omitempty"`
+	Headers    []Mapped   `json:"headers,omitempty"`
+	Cookies    []Mapped   `json:"cookies,omitempty"`
+	Body       *BodySpec  `json:"body,omitempty"`
+	Responses  []*Resp    `json:"responses,omitempty"`
+	Errors     []*ErrResp `json:"errors,omitempty"`
 }
 
 // BodySpec selects the body: a single attribute, a list of attributes, or Empty.
